@@ -1,6 +1,6 @@
 // C15 — tree/DAG queries follow graph-theoretic definitions; re-rooting keeps topology
 // VF-VARIANT: san
-// VF-RULE: E2: (a) every recursive tree (parent[i]<i) with 1..7 nodes and every labelled tree (Pruefer code) with 1..6 nodes (thorough: also every labelled 7-node tree, not re-rooted), built through createNode/addSon, x every new root (and "not re-rooted") x every node, ordered node pair and node subset of size <=3: rootAt clauses (same edge ids and end points, edge table agreeing with the links, new root the unique father-less node, still valid) and father/sons/branches/leaves-under/subtree/node-path/edge-path/MRCA against a parent-array reference; six structured families (path, star, caterpillar, balanced binary, comb, broom) with 8..12 nodes x 2 labellings x every root; (b) every labelled tree with 1..6|7 nodes x unRoot(false) x every new root; (c) every directed graph on <=4|5 labelled nodes (tree container with root 0; DAG container, arcs added through addSon/addFather) and every undirected graph on <=5|6 nodes for the validity predicates, fresh and cached, and DAG rootedness; (d) observer variant with node/edge objects: re-rooting keeps every edge object on its edge (recursive trees <=6|7 nodes x root), object-level wrappers agree with the id-level queries, setFather/addSon with an edge object (recursive trees <=5|6 nodes x node x father x 3 kinds of edge object), validity for every digraph on <=3|4 nodes x every root, DAG observer addSon/addFather with edge objects. E1: breadth-first histories of createNode/createNodeFromNode/setFather/addSon/removeSon/deleteNode/rootAt/unRoot(false|true)/setOutGroup/isValid/isRooted over <=5 node ids from the empty graph (depth 6|7) and from every recursive 4-node tree (depth 3..4|4), both 3-node trees (4|5) and three 5-node trees (3|3) on the tree container; of createNode/addSon/addFather/removeSon/removeFather/deleteNode/isValid/isRooted over <=4 node ids from the empty graph and from 3 and 4 isolated nodes (depth 4|5) on the DAG container; in every reached state (every cache status) the answer isValid() would give now and a fresh evaluation are compared with the definition evaluated on the graph read through the public getters, and every rootAt on a valid (rooted or un-rooted) tree is judged. A case is non-trivial when the tree has >=2 nodes (E2 trees), the graph has >=1 arc (E2 graphs) or the transition changed the canonical state (E1).
+// VF-RULE: E2: (a) every recursive tree (parent[i]<i) with 1..7 nodes and every labelled tree (Pruefer code) with 1..6 nodes (thorough: also every labelled 7-node tree, not re-rooted), built through createNode/addSon, x every new root (and "not re-rooted") x every node, ordered node pair and node subset of size <=3: rootAt clauses (same edge ids and end points, edge table agreeing with the links, new root the unique father-less node, still valid) and father/sons/branches/leaves-under/subtree/node-path/edge-path/MRCA against a parent-array reference; six structured families (path, star, caterpillar, balanced binary, comb, broom) with 8..12 nodes x 2 labellings x every root; (b) every labelled tree with 1..6|7 nodes x unRoot(false) x every new root; (c) every directed graph on <=4|5 labelled nodes (tree container with root 0; DAG container, arcs added through addSon/addFather) and every undirected graph on <=5|6 nodes for the validity predicates, fresh and cached, and DAG rootedness; every digraph on <=4 nodes x every new root x (validity and rootedness asked before or not) through DAG rootAt, validity and rootedness judged afterwards; (d) observer variant with node/edge objects: re-rooting keeps every edge object on its edge (recursive trees <=6|7 nodes x root), object-level wrappers agree with the id-level queries, setFather/addSon with an edge object (recursive trees <=5|6 nodes x node x father x 3 kinds of edge object), validity for every digraph on <=3|4 nodes x every root, DAG observer addSon/addFather with edge objects. E1: breadth-first histories of createNode/createNodeFromNode/setFather/addSon/removeSon/deleteNode/rootAt/unRoot(false|true)/setOutGroup/isValid/isRooted over <=5 node ids from the empty graph (depth 6|7) and from every recursive 4-node tree (depth 3..4|4), both 3-node trees (4|5) and three 5-node trees (3|3) on the tree container; of createNode/addSon/addFather/removeSon/removeFather/deleteNode/rootAt/isValid/isRooted over <=4 node ids from the empty graph and from 3 and 4 isolated nodes (depth 4|5) on the DAG container; in every reached state (every cache status) the answer isValid() would give now and a fresh evaluation are compared with the definition evaluated on the graph read through the public getters, and every rootAt on a valid (rooted or un-rooted) tree is judged. A case is non-trivial when the tree has >=2 nodes (E2 trees), the graph has >=1 arc (E2 graphs) or the transition changed the canonical state (E1).
 // VF-BOUND: all tree shapes and labellings up to 6 nodes and all recursive trees with 7 nodes instead of 12 nodes, six enumerated families (not random trees) for 8..12; node subsets of size <=3; all digraphs up to 4 (quick) / 5 (thorough) nodes instead of DAGs on 6; histories of depth <=2..6 from seed trees over <=5 node ids (tree) and <=4 node ids (DAG) instead of unbounded histories; no self-loops, no parallel links
 // VF-LEVEL: bounded-exhaustive differential check of the real containers against independent reference algorithms; every case of the stated finite spaces and every history up to the stated depth is executed under ASan/UBSan
 // VF-ASSUME: the reference algorithms in harness/C15_ref.hpp (BFS parent arrays, Kahn) are right;; the public getters getAllNodes/getOutgoingNeighbors/getIncomingNeighbors/getAllEdges/getTop/getBottom/getRoot/isDirected report the stored graph (GlobalGraph structure integrity is property C14);; E1 canonical states relabel edge ids by rank: the library uses edge ids only as ordered map keys and generates fresh ids above all existing ones, so behaviour is invariant under order-preserving relabelling;; histories never create self-loops or parallel links and, while the graph is undirected, never unlink (those reach the structure-integrity defects of C14, not the predicates of C15)
@@ -304,6 +304,36 @@ static void spaceDigraphs(vf::Runner& R, int nmax) {
       }
     }
     if (idx % 50021 == 17) c.sample(arcsStr(n, arcs, true) + " judged for tree and DAG validity");
+  }, 10.0);
+}
+
+// every digraph x every new root x "validity and rootedness asked before": DAG re-rooting is a topology edit like the others, the cached
+// answers must follow it. (Re-rooting a graph with reciprocal arcs can leave a cycle; the predicate has to say so.)
+static void spaceDigraphsRootAt(vf::Runner& R, int nmax) {
+  std::vector<Block> bl; uint64_t total = 0;
+  for (int n = 1; n <= nmax; ++n) { uint64_t cnt = (1ull << (n * (n - 1))) * (uint64_t)n * 2; bl.push_back(Block{n, total, cnt, 1}); total += cnt; }
+  R.space("validity:digraphs-then-rootAt:n<=" + str(nmax) + ":roots:asked-before2", total, [=](uint64_t idx, vf::Case& c) {
+    const Block& k = findBlock(bl, idx); int n = k.n; uint64_t r0 = idx - k.start;
+    bool asked = r0 % 2; unsigned root = (unsigned)((r0 / 2) % n); uint64_t mask = r0 / 2 / n;
+    auto arcs = arcList(n, mask, true);
+    if (!arcs.empty()) c.nontrivial();
+    c.site("DAGraphImpl::rootAt (digraph)");
+    DAGlobalGraph D(true);
+    for (int i = 0; i < n; ++i) D.createNode();
+    for (auto& a : arcs) D.addSon((unsigned)a.first, (unsigned)a.second);
+    if (asked) { try { D.isValid(); D.isRooted(); } catch (bpp::Exception&) {} }
+    bool raised = false;
+    try { D.rootAt(root); } catch (bpp::Exception&) { raised = true; }
+    GView g = viewOf(D); bool ref = refIsDag(g);
+    auto ctx = [&] { return "DAG container " + arcsStr(n, arcs, true) + (asked ? " isValid() isRooted()" : "") + " rootAt(" + str(root) + ")" + (raised ? " (raised)" : "") + " giving [" + g.str() + "]"; };
+    judgeValidity(c, "dag", dagValidity(D), ref, ctx);
+    if (ref) {
+      DAGlobalGraph cp(D); bool rooted = cp.isRooted();
+      if (rooted != (fatherless(g) == 1)) c.fail("rootedness|dag-isRooted-differs-from-definition", ctx() + ": isRooted() answers " + str(rooted) + " but " + str(fatherless(g)) + " node(s) have no father");
+    }
+    c.tag(ref ? "dag-rootAt:acyclic-afterwards" : "dag-rootAt:cyclic-afterwards");
+    if (raised) c.tag("dag-rootAt:raised");
+    if (idx % 50021 == 19) c.sample(ctx());
   }, 10.0);
 }
 
@@ -651,10 +681,10 @@ struct TreeSys : vf::SysBase {
 // ------------------------------------------------------------------------------------------------
 struct DagSys : vf::SysBase {
   enum { N = 4 };
-  enum Kind { CREATE, ADDSON, ADDFATHER, REMOVESON, REMOVEFATHER, DELETE, ISVALID, ISROOTED };
+  enum Kind { CREATE, ADDSON, ADDFATHER, REMOVESON, REMOVEFATHER, DELETE, ISVALID, ISROOTED, ROOTAT };
   std::unique_ptr<DAGlobalGraph> D;
   explicit DagSys(int initialNodes) : D(new DAGlobalGraph(true)) { for (int i = 0; i < initialNodes; ++i) D->createNode(); }
-  static int nops() { return 1 + 4 * N * N + N + 2; }
+  static int nops() { return 1 + 4 * N * N + N + 2 + N; }
   struct Op { Kind k; int a, b; };
   static Op decode(int op) {
     if (op == 0) return Op{CREATE, 0, 0};
@@ -662,7 +692,8 @@ struct DagSys : vf::SysBase {
     static const Kind four[] = {ADDSON, ADDFATHER, REMOVESON, REMOVEFATHER};
     if (op < 4 * N * N) return Op{four[op / (N * N)], (op % (N * N)) / N, op % N};
     op -= 4 * N * N; if (op < N) return Op{DELETE, op, 0};
-    op -= N; return Op{op == 0 ? ISVALID : ISROOTED, 0, 0};
+    op -= N; if (op < 2) return Op{op == 0 ? ISVALID : ISROOTED, 0, 0};
+    return Op{ROOTAT, op - 2, 0};
   }
   std::string opname(int op) const {
     Op o = decode(op);
@@ -674,6 +705,7 @@ struct DagSys : vf::SysBase {
       case REMOVEFATHER: return "removeFather(node " + str(o.a) + ", father " + str(o.b) + ")";
       case DELETE: return "deleteNode(" + str(o.a) + ")";
       case ISVALID: return "isValid()";
+      case ROOTAT: return "rootAt(" + str(o.a) + ")";
       default: return "isRooted()";
     }
   }
@@ -688,6 +720,7 @@ struct DagSys : vf::SysBase {
       case REMOVESON: return has(o.a) && has(o.b) && arc(o.a, o.b);
       case REMOVEFATHER: return has(o.a) && has(o.b) && arc(o.b, o.a);
       case DELETE: return has(o.a);
+      case ROOTAT: return has(o.a);
       default: return true;
     }
   }
@@ -721,6 +754,7 @@ struct DagSys : vf::SysBase {
         case REMOVEFATHER: D->removeFather((unsigned)o.a, (unsigned)o.b); break;
         case DELETE: D->deleteNode((unsigned)o.a); break;
         case ISVALID: answer = D->isValid(); break;
+        case ROOTAT: D->rootAt((unsigned)o.a); break;
         default: answer = D->isRooted(); break;
       }
     } catch (bpp::Exception&) { raised = true; }
@@ -743,7 +777,7 @@ struct DagSys : vf::SysBase {
       c.tag(ref ? "dag-state:acyclic" : "dag-state:cyclic");
     }
     if (canon() != before) c.nontrivial();
-    static const char* kn[] = {"createNode", "addSon", "addFather", "removeSon", "removeFather", "deleteNode", "isValid", "isRooted"};
+    static const char* kn[] = {"createNode", "addSon", "addFather", "removeSon", "removeFather", "deleteNode", "isValid", "isRooted", "rootAt"};
     c.tag(std::string("dag-op:") + kn[o.k] + (raised ? ":raised" : ""));
   }
 };
@@ -764,6 +798,8 @@ int main(int argc, char** argv) {
   spaceFamilies(R);
   spaceUnrootReroot(R, th ? 7 : 6);
   spaceDigraphs(R, th ? 5 : 4);
+  spaceDigraphsRootAt(R, 4);
+  R.expectSeen("dag-rootAt:cyclic-afterwards"); R.expectSeen("dag-rootAt:acyclic-afterwards");
   spaceUndirected(R, th ? 6 : 5);
   spaceObserverReroot(R, th ? 7 : 6);
   spaceObserverEdit(R, th ? 6 : 5);
